@@ -141,7 +141,22 @@ func VerifC05_Tree() {
 	t := newTree(2 * K)
 	pubs := []int{0}
 	for i := 0; i < K; i++ {
-		switch zzverif.NondetInt("action", 0, 2) {
+		switch zzverif.NondetInt("action", 0, 3) {
+		case 3:
+			// a subscriber goes away mid-stream: its siblings must not notice
+			var live []int
+			for j, n := range t.nodes {
+				if n.kind == "sub" && !n.closed {
+					live = append(live, j)
+				}
+			}
+			if len(live) == 0 {
+				zzverif.Assume(false)
+			}
+			v := t.nodes[live[zzverif.NondetInt("close", 0, len(live)-1)]]
+			v.closed = true
+			v.sub.Close()
+			zzverif.Reach("C05/sibling-closed")
 		case 0:
 			t.publish()
 		case 1:
@@ -161,7 +176,7 @@ func VerifC05_Tree() {
 	zzverif.Quiesce()
 	nsub := 0
 	for _, n := range t.nodes {
-		if n.kind == "sub" {
+		if n.kind == "sub" && !n.closed {
 			n.drain()
 			t.checkSuffix(n, "C05")
 			nsub++
